@@ -35,6 +35,9 @@ PROPS = {
  "C10": ("exploration", "Print-then-parse round trip: each decorated abstract grammar is rendered in many layouts and syntaxes and every public accessor of the built YaccGrammar (plus spans) is compared with the abstract grammar; sampled grammars x renderings.",
          "Trusted: the renderer's record of what it printed where. Token numbering order, action spans and the added start production's span are not asserted.",
          "runtime monitoring: round-trip law monitor (abstract grammar -> text -> YaccGrammar accessors)", "DESIGN.md §4 C10"),
+ "C12": ("exploration", "Hostile-input workload: for each seed specification (generated .y/.l in all syntaxes and every specification found under /repo) every truncation (exhaustive per seed) plus random structural mutants and character injections go through every specification parser entry point; monitors: no panic, returns (watchdog with isolated confirmation and input trace), value or non-empty errors, all error/warning spans inside the text on char boundaries.",
+         "Trusted: the span validity predicate; the watchdog protocol for termination.",
+         "runtime monitoring: robustness workload (exhaustive truncation + mutation) with assertion monitors and a termination watchdog", "DESIGN.md §4 C12"),
  "C16": ("exploration", "Every state x token x rule of every generated table: state_actions/state_shifts/core_reduces/reduce_only_state/goto vs action() and the graph's edges, reachability of all states, and every closed state vs a reference LR(1) closure of its core. Exhaustive over cells per generated grammar; grammars are sampled.",
          "Trusted: harness FIRST/nullable/closure.",
          "runtime monitoring: invariant checks on the live state graph and table at the quiescent point after construction", "DESIGN.md §4 C16"),
